@@ -290,12 +290,14 @@ pub fn slot_values(hint: u8, level: u8) -> Vec<Option<MVal>> {
                 Some(arr(vec![s("a")])),
                 Some(arr(vec![s("b"), s("a")])),
                 Some(s("a")),
+                Some(arr(vec![obj(vec![("x", s("a"))])])),
+                Some(arr(vec![obj(vec![("x", s("b"))]), obj(vec![("x", s("a")), ("y", s("a"))])])),
             ];
             if level >= 1 {
                 v.extend(vec![Some(arr(vec![])), Some(arr(vec![MVal::Int(1)]))]);
             }
             if level >= 2 {
-                v.extend(vec![Some(arr(vec![obj(vec![("x", s("a"))])])), Some(MVal::Null)]);
+                v.extend(vec![Some(MVal::Null), Some(obj(vec![("x", s("a"))]))]);
             }
             v
         }
@@ -304,6 +306,14 @@ pub fn slot_values(hint: u8, level: u8) -> Vec<Option<MVal>> {
 
 /// All documents over the slots of `spec` (plus one unnamed field `zz` when `extra`).
 pub fn docs_for(spec: &RuleSpec, level: u8, cap: usize) -> Vec<MObj> {
+    // the wide-list family brings its own documents
+    if let Some((_, Body::Map(m))) = spec.idents.first() {
+        if let Some(Val::List(v)) = m.first().map(|en| &en.val) {
+            if v.len() >= 60 {
+                return wide_docs(v.len());
+            }
+        }
+    }
     let sl = slots(spec);
     docs_for_slots(&sl, level, cap)
 }
@@ -496,6 +506,7 @@ pub fn entry_pool(level: u8) -> Vec<Entry> {
         e("n", map(vec![e("x", st("a"))])),
         e("n", map(vec![e("y", st("b"))])),
         e("n.x", st("a")),
+        e("not(g)", st("x")),
     ];
     if level >= 1 {
         v.extend(vec![
@@ -590,6 +601,7 @@ pub fn conditions2() -> Vec<&'static str> {
         "not not A",
         "not not A or B",
         "not (not A and B)",
+        "not A or not B",
     ]
 }
 pub fn conditions_q() -> Vec<&'static str> {
@@ -623,6 +635,9 @@ pub fn conditions3() -> Vec<&'static str> {
         "not A or B and not C",
         "(A and B) or (A and C)",
         "(A or B) and (A or C)",
+        "not A or not B or not C",
+        "not A and not B and not C",
+        "not A or not B and C",
     ]
 }
 
@@ -859,12 +874,135 @@ fn field_root(key: &str) -> String {
     k.to_string()
 }
 
+/// Family 6: conditions that combine cast comparisons (incl. field-vs-field and literal-first)
+/// with identifiers under and/or/not - after coalesce+shake these become groups the matrix
+/// pass looks at.
+pub fn family_castconds(level: u8) -> Vec<RuleSpec> {
+    let atoms = [
+        "int(f) == 1",
+        "int(f) == int(g)",
+        "1 < int(g)",
+        "flt(f) >= 1.5",
+        "str(f) == str(g)",
+        "int(h) == 2",
+        "A",
+        "not A",
+        "int(g) >= 2",
+        "flt(f) < flt(h)",
+    ];
+    let n = if level == 0 { 8 } else { atoms.len() };
+    let shapes3 = [
+        "({0} and {1} and {2}) or {3} or {4}",
+        "({0} and {1}) or {2}",
+        "{0} or {1} or {2}",
+        "({0} or {1}) and {2}",
+        "not ({0} and {1}) or {2}",
+        "{0} and {1} and {2}",
+        "({0} and {1}) or ({2} and {3})",
+    ];
+    let body = Body::Map(vec![e("f", st("1*"))]);
+    let mut out = vec![];
+    let mut c = 0usize;
+    for sh in shapes3 {
+        let slots = sh.matches('{').count();
+        let total = n.pow(slots as u32);
+        let stride = if level == 0 {
+            if slots >= 4 { 13 } else { 1 }
+        } else if slots >= 5 {
+            7
+        } else {
+            1
+        };
+        for k in 0..total {
+            c += 1;
+            if c % stride != 0 {
+                continue;
+            }
+            let mut t = sh.to_string();
+            let mut m = k;
+            for i in 0..slots {
+                t = t.replace(&format!("{{{}}}", i), atoms[m % n]);
+                m /= n;
+            }
+            out.push(RuleSpec {
+                idents: vec![("A".into(), body.clone())],
+                cond: t,
+            });
+        }
+    }
+    out
+}
+
+/// Family 7: paths with an index followed by further segments, and containers inside containers.
+pub fn family_paths(_level: u8) -> Vec<RuleSpec> {
+    let keys = ["l[0].x", "l[1].x", "l[2].x", "n.l[0]", "n.x", "l[1]", "n.y", "not(l[1].x)", "str(l[0].x)"];
+    let vals = [st("a"), st("b*"), st("*"), int(1)];
+    let mut out = vec![];
+    for k in keys {
+        for v in &vals {
+            out.push(RuleSpec::one(Body::Map(vec![e(k, v.clone())])));
+            out.push(RuleSpec::one(Body::Map(vec![e(k, v.clone()), e("x", st("a"))])));
+            out.push(RuleSpec::one(Body::Seq(vec![vec![e(k, v.clone())], vec![e("y", st("a"))]])));
+        }
+    }
+    out.push(RuleSpec::one(Body::Map(vec![e("l", map(vec![e("x", st("a"))]))])));
+    out.push(RuleSpec::one(Body::Map(vec![e("n", map(vec![e("l[0]", st("a"))]))])));
+    out
+}
+
+/// Family 8: lists around the solver's 64-needle boundary (bitmap vs set counting).
+pub fn wide_list(n: usize, insensitive: bool) -> Val {
+    list(
+        (0..n)
+            .map(|i| {
+                let t = format!("*k{:02}x*", i);
+                st(&if insensitive { format!("i{}", t.to_uppercase().replace("*K", "*K")) } else { t })
+            })
+            .collect(),
+    )
+}
+pub fn family_wide() -> Vec<RuleSpec> {
+    let mut out = vec![];
+    for n in [63usize, 64, 65, 70] {
+        for ins in [false, true] {
+            for k in ["f", "all(f)", "of(f, 2)", "of(f, 64)", "of(f, 0)"] {
+                out.push(RuleSpec::one(Body::Map(vec![e(k, wide_list(n, ins))])));
+            }
+        }
+    }
+    out
+}
+/// documents for the wide lists: strings containing chosen subsets of the needles
+pub fn wide_docs(n: usize) -> Vec<MObj> {
+    let mk = |idx: Vec<usize>| {
+        let t: String = idx.iter().map(|i| format!("k{:02}x-", i)).collect();
+        MObj::new().with("f", s(&t))
+    };
+    vec![
+        MObj::new(),
+        mk(vec![]),
+        mk(vec![0]),
+        mk(vec![0, 1]),
+        mk((0..n / 2).collect()),
+        mk((n / 2..n).collect()),
+        mk((0..n).collect()),
+        mk((0..n.saturating_sub(1)).collect()),
+        mk((1..n).collect()),
+        mk(vec![n - 1, n - 2]),
+        mk((0..64.min(n)).collect()),
+        MObj::new().with("f", MVal::Int(1)),
+    ]
+}
+
 pub fn universe(level: u8) -> Vec<RuleSpec> {
     let mut out = family_single(level);
     out.extend(family_bodies(level));
     out.extend(family_conditions(level));
     out.extend(family_regex(if level == 0 { 3 } else { 4 }));
     out.extend(family_matrix(level));
+    out.extend(family_castconds(level));
+    out.extend(family_paths(level));
+    out.extend(family_wide());
     out
 }
 
